@@ -139,6 +139,7 @@ func (h *H) doSnapshot(sid int, t, c int64, fail int) {
 	if err == nil {
 		if st.resp != nil {
 			res = fmt.Sprintf("snap:%d", st.resp.AckOffset)
+			h.olderAccepted("SendSnapshot", t)
 			h.termActionAccepted(t)
 		} else {
 			res = "err:noresponse"
